@@ -291,6 +291,7 @@ impl Runtime {
                 let mut range = range.clone();
                 if let Some((string, columns)) = self.listing.list_line(&mut range) {
                     self.state = State::Listing(range);
+                    self.print_col = 0;
                     return Event::List((string, columns));
                 }
                 self.state = State::Running;
@@ -566,6 +567,7 @@ impl Runtime {
     }
 
     fn r#cls(&mut self) -> Result<Event> {
+        self.print_col = 0;
         Ok(Event::Cls)
     }
 
